@@ -341,7 +341,7 @@ def check_translation(ck):
         p = os.path.join(ck.bdir, 'SplitArith_gen.v')
         open(p, 'w').write(txt)
         rc, out, dt = coqc(p)
-        ck.checker_cmds.append(f'coqc build/{ck.pid}/SplitArith_gen.v')
+        ck.checker_cmds.append(f'coqc build/{ck.pid}/run_<pid>/SplitArith_gen.v')
         ck.obligation('SplitArith_gen.v: arithmetic and comparison operators of _get_balanced_split, _refill_val_set, _build_tree and prediction-time routing, '
                       're-translated from the source, equal the hand model (lia / reflexivity)', 'translation', rc == 0, out)
         return rc == 0
